@@ -347,17 +347,26 @@ class Schema(dict, metaclass=LogicalMeta):
             # need to update the dependant properties
             self.__coerce_dependants__(field, context=context)
 
-    def __coerce_dependants__(self, field: ParserField, context: RuntimeContext, seen: set = None):
-        if seen is None:
-            seen = {field.name}
-        for dep in field.dependants:
-            dep_field = self.__parser__.get_field(dep)
-            if dep_field and dep_field.property and dep_field.name not in seen:
-                seen.add(dep_field.name)
-                self.__coerce_property__(dep_field, context=context)
-                if dep_field.dependants:
-                    # the properties that depend on this property
-                    self.__coerce_dependants__(dep_field, context=context, seen=seen)
+    def __coerce_dependants__(self, field: ParserField, context: RuntimeContext):
+        # every property that depends on this field, directly or through other properties
+        pending = {}
+        stack = [field]
+        while stack:
+            for dep in tuple(stack.pop().dependants):
+                dep_field = self.__parser__.get_field(dep)
+                if dep_field and dep_field.property and dep_field.name not in pending:
+                    pending[dep_field.name] = dep_field
+                    stack.append(dep_field)
+        # a property is calculated after the properties it depends on
+        while pending:
+            ready = [
+                name for name, dep_field in pending.items()
+                if not any(
+                    d in pending for d in (dep_field.dependencies or ()) if d != name
+                )
+            ] or list(pending)
+            for name in ready:
+                self.__coerce_property__(pending.pop(name), context=context)
 
     def __setitem__(self, alias: str, value):
         if self.__options__.immutable:
